@@ -214,8 +214,11 @@ PinIndependent(coll) ==
             LET a == Relative(coll, M, Solve(coll, M, K, p))
             IN  \A u \in a : \E v \in b : u[1] = v[1] /\ u[2] * v[3] = v[2] * u[3]
 
+(* several level-richest components, each with something to align: WHICH one is "the main body" is not
+   determined by the property, but the result must still not depend on the presentation *)
+Tie(coll) == Cardinality(MainBodies(coll)) > 1 /\ \A C \in MainBodies(coll) : Cardinality(C) >= 2
 Result(coll) ==
-    IF ~Judged(coll) THEN [judged |-> FALSE]
+    IF ~Judged(coll) THEN [judged |-> FALSE, tie |-> Tie(coll)]
     ELSE LET M == Main(coll) K == KeptIn(coll, M) sol == Solve(coll, M, K, CodePin(coll)) IN
          [judged |-> TRUE,
           members |-> {coll[i].id : i \in M},
